@@ -572,6 +572,16 @@ pub fn c14_position(p: &Pos, extra: u16, st: &mut Stats) -> CaseResult {
     if vq != v {
         return Err(format!("evaluation of '{}' changes from {} to {} when only castling rights / en passant target / last move / promotion field / key / ordering value change", p.fen(), v, vq));
     }
+    // the same board with only the side-to-move flag flipped (what the null-move search does: the
+    // key is NOT updated): still the negated number - the result may depend on nothing but placement
+    // and side to move, in particular not on the key
+    let mut f = b.clone();
+    f.to_move = b.to_move.opposite();
+    let vf = catch(|| get_evaluation(&f)).map_err(|e| format!("get_evaluation panicked: {}", e))?;
+    let vb = catch(|| get_evaluation(&b)).map_err(|e| format!("get_evaluation panicked: {}", e))?;
+    if vf != -v || vb != v {
+        return Err(format!("evaluation of '{}' is {}; the same board with only the side-to-move flag flipped (key untouched, as in the null-move search) evaluates to {} (should be {}), and evaluating the original again gives {}", p.fen(), v, vf, -v, vb));
+    }
     if v.abs() >= MATE_FLOOR {
         return Err(format!("evaluation of '{}' is {}, inside or near the range reserved for mate scores", p.fen(), v));
     }
@@ -735,9 +745,77 @@ pub fn run_c14(ctx: &mut Ctx) {
     run_prop(ctx, "random_placements_sparse", || material_strategy(10, false), t.pick(1_500_000, 10_000_000), body, tc);
     run_prop(ctx, "random_placements_dense", || material_strategy(62, false), t.pick(1_000_000, 6_000_000), body, tc);
     run_prop(ctx, "random_placements_queen_heavy", || material_strategy(40, true), t.pick(500_000, 4_000_000), body, tc);
+    // boards that came about by playing moves (generator chain and text applier), promotion-rich
+    run_prop(
+        ctx,
+        "boards_produced_by_playing_moves",
+        move || prop_oneof![2 => walk_strategy(t.pick(60, 120)), 3 => (prop_oneof![(17usize..22).prop_map(Start::Corpus), Just(Start::Corpus(3)), Just(Start::Corpus(4)), placement_promo().prop_map(Start::Placement)], proptest::collection::vec(any::<u16>(), 0..30)).prop_map(|(start, choices)| WalkRecipe { start, choices })],
+        t.pick(30_000, 400_000),
+        |r, st| {
+            let Some((start, moves)) = play_walk(r) else { return Ok(()) };
+            st.sample(|| json!({"fen": start.fen(), "moves": moves.iter().map(mv_name).collect::<Vec<_>>()}));
+            c14_game(&start, &moves, st)
+        },
+        walk_json,
+    );
+}
+
+/// boards PRODUCED by the generator and by the text applier along a game must evaluate exactly like
+/// the same placement loaded from FEN (the result depends on placement and side to move only, not on
+/// how the board came about or on anything carried along from earlier moves)
+pub fn c14_game(start: &Pos, moves: &[Move], st: &mut Stats) -> CaseResult {
+    let z = crate::props::movegen::hasher();
+    let mut p = start.clone();
+    let mut gen_b = board_of(start)?;
+    let mut txt_b = gen_b.clone();
+    let mut gen_alive = true;
+    let mut phase_excess = false;
+    for m in moves {
+        let np = p.apply(m);
+        if gen_alive {
+            match gen_all(&gen_b, z).into_iter().find(|s| desc(s).ok() == Some(*m)) {
+                Some(s) if to_pos(&s).ok().as_ref() == Some(&np) => gen_b = s,
+                _ => gen_alive = false,
+            }
+        }
+        catch(|| crate::uci::verif_make_move(&mut txt_b, &mv_name(m), z))?;
+        if to_pos(&txt_b).ok().as_ref() != Some(&np) {
+            return Ok(()); // C04's subject
+        }
+        p = np;
+        st.eval();
+        let (want, _) = eval_of(&p)?;
+        let phase: i32 = p.sq.iter().flatten().map(|(_, k)| match k { Kind::Knight | Kind::Bishop => 1, Kind::Rook => 2, Kind::Queen => 4, _ => 0 }).sum();
+        if phase > 24 {
+            phase_excess = true;
+        }
+        for (name, b) in [("the generator", &gen_b), ("the text-move applier", &txt_b)] {
+            if name == "the generator" && !gen_alive {
+                continue;
+            }
+            let got = catch(|| get_evaluation(b)).map_err(|e| format!("get_evaluation panicked: {}", e))?;
+            if got != want {
+                return Err(format!("the board produced by {} after {:?} from '{}' evaluates to {} but the same placement '{}' loaded from FEN evaluates to {}", name, moves.iter().map(mv_name).collect::<Vec<_>>(), start.fen(), got, p.fen(), want));
+            }
+        }
+        if m.promo.is_some() {
+            st.label("game_with_promotion");
+        }
+    }
+    if phase_excess {
+        st.label("game_phase_above_24_at_some_point");
+        st.nontrivial(fp(&(start, moves, 1)));
+    } else if !moves.is_empty() {
+        st.nontrivial(fp(&(start, moves)));
+    }
+    Ok(())
 }
 
 pub fn replay_c14(case: &Value) -> CaseResult {
+    if case.get("moves").is_some() {
+        let (start, moves) = parse_game_case(case)?;
+        return c14_game(&start, &moves, &mut Stats::new());
+    }
     let fen = case.get("fen").and_then(|x| x.as_str()).ok_or("no fen in replay case")?;
     let p = Pos::parse_fen(fen).ok_or("fen does not parse")?;
     let extra = case.get("extra").and_then(|x| x.as_u64()).unwrap_or(0) as u16;
